@@ -354,6 +354,67 @@ def r9(ctx):
             ctx.ob('C03.R9', fn, nid, ok, 'remaining timeout in %s' % name.split('::')[-2], why)
 
 
+def r11(ctx):
+    ctx.rule('C03.R11', 'an arbitration that has ended is disarmed in the device: wherever a device reports won, lost, timed out or '
+             'error through the arbitration state out-parameter, m_arbitrationMaster = SYN is passed on every path from that '
+             'report to the exit of the function; a device that stays armed after a lost arbitration writes the address '
+             'again at the next SYN, whatever the lock counter of the protocol handler says', minimum=3)
+    fb = ctx.fb
+    ends = set()
+    for en, e in fb.enums.items():
+        for x in e['enumerators']:
+            if x['name'] in ('as_won', 'as_lost', 'as_timeout', 'as_error'):
+                ends.add(x['v'])
+    if len(ends) < 4:
+        raise AnalysisBroken('C03.R11: arbitration state enumerators not found')
+    n = 0
+    for fn in fb.functions:
+        if not fn.relfile.startswith('src/lib/ebus/device') or not fn.blocks or not fn.cls or 'Device' not in fn.cls:
+            continue
+        disarm = set(nid for nid, d, rhs, op, lhs in fn.assignments() if d == 'this.m_arbitrationMaster' and rhs is not None and fn.val(rhs) == 170)
+        helper = set(c for c in fn.all('CXXMemberCallExpr') if (fn.nodes[c].get('callee') or '').endswith('cancelRunningArbitration'))
+        for nid, d, rhs, op, lhs in fn.assignments():
+            if lhs is None or rhs is None or not fn.key(lhs).startswith('*'):
+                continue
+            lt = fn.nodes.get(fn.strip(lhs), {}).get('t') or ''
+            if 'ArbitrationState' not in lt:
+                continue
+            r = fn.nodes.get(fn.strip(rhs), {})
+            vals = {fn.val(r['then']), fn.val(r['else'])} if r.get('k') == 'ConditionalOperator' else {fn.val(rhs)}
+            if not (vals & ends):
+                continue
+            n += 1
+            ctx.touch(fn)
+            p0 = fn.pos(nid)
+            # disarmed before (on every path to the report) or afterwards (on every path to the exit)
+            before = bool(disarm) and not fn.reaches_point(fn.entry, p0, disarm)
+            after = not fn.reaches_point(p0[0], (fn.exit, 0), disarm | helper, start_idx=p0[1] + 1)
+            ctx.ob('C03.R11', fn, nid, before or after, 'arbitration result %s in %s' % (fn.key(rhs)[:40], fn.name.split('::')[-1]),
+                   'device disarmed on every path (before the report: %s, between the report and the exit: %s)' % (before, after))
+    if n < 3:
+        raise AnalysisBroken('C03.R11: only %d arbitration result reports found in the device sources' % n)
+
+
+def r12(ctx):
+    ctx.rule('C03.R12', 'the device is never left armed without a pending request: where setState completes all queued requests '
+             '(the drain on signal loss) every path from the drain to the exit of the function resets the arbitration of the '
+             'device (startArbitration(SYN)); otherwise the address is written after the next SYN although nothing is pending',
+             minimum=1)
+    fb = ctx.fb
+    fn = fb.fn(A.SS)
+    ctx.touch(fn)
+    pops = [c for c in fn.all('CXXMemberCallExpr') if (fn.nodes[c].get('callee') or '').endswith('::pop') and
+            'm_nextRequests' in fn.key(fn.nodes[c].get('obj', -1))]
+    if not pops:
+        raise AnalysisBroken('C03.R12: drain of m_nextRequests not found in setState')
+    resets = set(c for c in fn.all('CXXMemberCallExpr') if (fn.nodes[c].get('callee') or '').endswith('::startArbitration') and
+                 fn.nodes[c].get('args') and fn.val(fn.nodes[c]['args'][0]) == 170)
+    for c in pops:
+        p0 = fn.pos(c)
+        armed = fn.reaches_point(p0[0], (fn.exit, 0), resets, start_idx=p0[1] + 1)
+        ctx.ob('C03.R12', fn, c, not armed, 'drain of the request queue', 'device arbitration reset on every path behind the drain: %s' % (not armed))
+
+
 def run(ctx):
     r1(ctx)
     r2(ctx)
@@ -370,3 +431,5 @@ def run(ctx):
     r9(ctx)
     import rules.C15 as c15
     c15.fresh_answer_rule(ctx, 'C03.R10')
+    r11(ctx)
+    r12(ctx)
